@@ -516,9 +516,28 @@ def scalar_form(v, form):
     return np.dtype(form).type(int(v))
 
 
+_NEAR = []
+
+
+def near_pairs():
+    """Whole-degree pairs (d1, d2, dra) whose separation lies within 1e-6 .. 8e-4 relative of a whole-degree length L,
+    on either side of it (candidates only: which side they are on is decided by the oracle, as for every set)."""
+    if not _NEAR:
+        d1, dd, dra = np.meshgrid(np.arange(0, 90.0), np.arange(0, 13.0), np.arange(0, 120.0), indexing='ij')
+        d2 = d1 + dd
+        a, b, c = np.deg2rad(d1), np.deg2rad(d2), np.deg2rad(dra)
+        h = np.sin((b - a) / 2) ** 2 + np.cos(a) * np.cos(b) * np.sin(c / 2) ** 2
+        sep = np.rad2deg(2 * np.arcsin(np.sqrt(h)))
+        for L in range(1, 13):
+            rel = np.abs(sep - L) / L
+            for i, j, k in zip(*np.nonzero((d2 <= 90) & (rel > 1e-6) & (rel < 8e-4))):
+                _NEAR.append((L, int(d1[i, j, k]), int(d2[i, j, k]), int(dra[i, j, k])))
+    return _NEAR
+
+
 def gen_whole(rng):
     """Whole-degree positions (exactly representable in every dtype used)."""
-    kind = rng.choice(['chain', 'chain', 'box', 'ubox', 'ubox', 'polar', 'demo', 'lattice', 'lattice'])
+    kind = rng.choice(['chain', 'chain', 'box', 'ubox', 'ubox', 'polar', 'demo', 'lattice', 'lattice', 'nearL', 'nearL'])
     L = rng.choice([0.5, 0.9, 1.1, 1.3, 1.5, 2.2, 2.5, 3.3, 4.7])
     if kind == 'demo':
         pts = [(float(x), 0.0) for x in range(0, 40, 2)]
@@ -538,6 +557,13 @@ def gen_whole(rng):
         r0 = rng.randint(0, 240)
         w, h = rng.randint(3, 12), rng.randint(2, 9)
         pts = [(float(r0 + rng.randint(0, w)), float(d0 + rng.randint(0, h))) for _ in range(rng.randint(4, 30))]
+    elif kind == 'nearL':         # a pair just inside or just outside a whole-degree linking length (a length held in
+        L, d1, d2, dra = rng.choice(near_pairs())      # half precision is off by up to 5e-4 relative), plus far points
+        r0 = rng.choice([rng.randint(0, 200), rng.randint(0, 359), 359])
+        sgn = rng.choice([1, 1, -1])
+        pts = [(float(r0), float(sgn * d1)), (float((r0 + dra) % 360), float(sgn * d2))]
+        for k in range(rng.randint(0, 3)):
+            pts.append((float((r0 + 150 + 20 * k) % 360), float(sgn * max(0, d1 - 30))))
     elif kind == 'lattice':       # whole-degree lattice and a whole-degree linking length that no lattice distance equals
         step, L = rng.choice([(2, 3), (3, 4), (3, 2), (2, 1), (5, 6), (4, 5)])
         d0 = rng.choice([rng.randint(-60, 50), rng.randint(0, 50), 90 - 3 * step])
@@ -720,7 +746,7 @@ def run(ctx):
         sets = make_sets(rng, 2500, 70, nbig=40, bigmax=260)
         sweep, missing = make_sweep(rng, 400, False)
     sets += sweep
-    sets += make_dtype_sets(rng, 40 if ctx.quick else 250)
+    sets += make_dtype_sets(rng, 45 if ctx.quick else 160)
     recs, kept = [], []
     skipped = 0
     for s in sets:
